@@ -14,6 +14,12 @@ def seeded_table():
         rows.append(f"| {name} | {m['breaks_property']} | {m['needs_to_manifest']} | {hit or '**none**'} | {miss} |")
     return "\n".join(rows)
 
+EQUIVALENT = {
+    "C01-find_in_products_low_start_1": "equivalent: the only key at index 0 (48 = 2-2-2-2-3) is 'not found' -> index 0 -> still the right entry",
+    "C01-five_cards_sorted_dedup": "equivalent: evaluation is order-independent, sorting first changes nothing",
+    "C05-unique_bound_other_way": "equivalent on the domain: OR-ed rank bits of cards/blanks never exceed 7936",
+}
+
 def mutant_table():
     p = os.path.join(ROOT, "tools/mutants/RESULTS.json")
     if not os.path.exists(p):
@@ -24,7 +30,10 @@ def mutant_table():
         v = r[k]
         suite = "passes" if v.get("suite_failed_tests") == 0 else (f"{v.get('suite_failed_tests')} tests fail" if "suite_failed_tests" in v else v["status"])
         rep = (v.get("report") or [""])[-1].replace("|", "\\|")[:160]
-        rows.append(f"| {k} | {suite} | {v['status']} ({v.get('seconds','-')} s) | {rep} |")
+        status = v["status"]
+        if status == "MISSED" and k in EQUIVALENT:
+            status = "not reported — " + EQUIVALENT[k]
+        rows.append(f"| {k} | {suite} | {status} ({v.get('seconds','-')} s) | {rep} |")
     return "\n".join(rows)
 
 def main():
